@@ -198,6 +198,30 @@ class Executor(object):
                 why = B.same_set(B.fdesc(ln), B.denote(o.line))
                 if why:
                     raise Fail("%s [%s]: cached .line is stale: %s" % (tag, k, why), {"line": B.denote(o.line)}, self.facts)
+            if k == "PL":
+                # the equation forms of a moved plane describe the moved plane
+                gf = self.guard("general_form", o.general_form)
+                nf = (float(gf[0]), float(gf[1]), float(gf[2]))
+                u_, v_ = X.perp2(model[2])
+                for q in (model[1], X.add(model[1], u_), X.add(model[1], v_)):
+                    if abs(B._fdot(nf, X.fl(q)) - float(gf[3])) > 1e-9 * max(1.0, abs(float(gf[3]))):
+                        raise Fail("%s [PL]: general_form() is not the equation of the translated plane" % tag, {"got": repr(gf)}, self.facts)
+                pn = self.guard("point_normal", o.point_normal)
+                pu = self.guard("parametric", o.parametric)
+                for nm, sup in (("point_normal", pn[0]), ("parametric", pu[0])):
+                    w = X.sub(tuple(F(float(c)) for c in sup), model[1])
+                    if abs(float(X.dot(w, model[2]))) > 1e-9 * max(1.0, A._len(model[2])):
+                        raise Fail("%s [PL]: %s() support point is not on the translated plane" % (tag, nm), {"got": B._v3(sup)}, self.facts)
+                if not B._parallel(B._v3(pn[1]), X.fl(model[2])):
+                    raise Fail("%s [PL]: point_normal() normal changed" % tag, {}, self.facts)
+                for vv in (pu[1], pu[2]):
+                    if abs(B._fdot(B._v3(vv), X.fl(model[2]))) > 1e-9 * B._fnorm(B._v3(vv)) * A._len(model[2]):
+                        raise Fail("%s [PL]: parametric() vector is not parallel to the plane" % tag, {}, self.facts)
+            if k == "L":
+                su = self.guard("parametric", o.parametric)
+                why = B.same_set(B.fdesc(model), ("L", B._v3(su[0]), B._v3(su[1])))
+                if why:
+                    raise Fail("%s [L]: parametric() does not describe the translated line: %s" % (tag, why), {}, self.facts)
             if k == "S":
                 ref = X.seg_len(model[1], model[2])
                 if not _num_eq(self.guard("length", o.length), ref):
